@@ -323,6 +323,9 @@ fn pool() -> (Vec<String>, Vec<String>) {
         "\x1bE", "\x1bH", "\x1bc", "\x1b#8", "\x1b(0", "\x1b)B", "\x1b%G", "\x1b]0;t\x07", "\x1b]0;t\x1b\\", "\u{9d}x\u{9c}", "\x1bP1;2$qm\x1b\\", "\u{90}q\u{9c}",
         "\x1bXa\x1b\\", "\x1b^b\u{9c}", "\x1b_c\x1b\\", "\u{84}", "\u{85}", "\u{8d}", "\u{88}", "\x18", "\x1a", "\x1b[65535;65535H", "\x1b[1:2:3:4:5:6m", "\x1b[b",
         "\x1b[2b", "\x1b[L", "\x1b[2M", "\x1b[@", "\x1b[3P", "\x1b[4X", "\x1b[S", "\x1b[2T", "\x1b[d", "\x1b[2e", "\x1b[G", "\x1b[3`", "\x1b[I", "\x1b[2Z", "\x1b[s", "\x1b[u",
+        // positional parameters left out at the end: each must read as its default whatever an earlier
+        // sequence left in the slots behind the last one written
+        "\x1b[8t", "\x1b[8;24t", "\x1b[8;;5t", "\x1b[5r", "\x1b[;3r", "\x1b[7;H", "\x1b[5f", "\x1bP1q\x1b\\", "\x1b[38;5m", "\x1b[38;2;1;2m",
     ]
     .iter()
     .map(|s| s.to_string())
